@@ -44,14 +44,46 @@ Decide(d, t, st, res, ctx) ==
   [i \in 1..Len(es) |->
      LET c == EvalCond(es[i].when, st, res, ctx)
          p == IF c = "T" THEN PubRoll(es[i].pub, 1, res, ctx) ELSE [ok |-> TRUE, ctx |-> ctx, new |-> << >>]
-     IN [dst |-> es[i].dst, key |-> es[i].key, c |-> c, pubok |-> p.ok, octx |-> p.ctx,
-         sat |-> c = "T" /\ p.ok]]
+     IN [dst |-> es[i].dst, key |-> es[i].key, ti |-> es[i].ti, pub |-> es[i].pub, c |-> c,
+         pubok |-> p.ok, new |-> p.new, sat |-> c = "T" /\ p.ok]]
 
 SatTargets(dec) == {dec[i].dst : i \in {j \in 1..Len(dec) : dec[j].sat}}
 ExprTrouble(dec) == \E i \in 1..Len(dec) : dec[i].c = "E" \/ ~dec[i].pubok
 
+(* ---------- C06: bindings ------------------------------------------------------------------- *)
+(* A binding is [val, pid, hist]: the value, who published it (record index, transition index;  *)
+(* <<0,0>> for input/vars) and the <<pid, val>> pairs the publisher itself had received.        *)
+Bind(v, pid, hist) == [val |-> v, pid |-> pid, hist |-> hist]
+Proj(c) == [v \in DOMAIN c |-> c[v].val]
+RootCtx(d) ==
+  LET rv == [i \in 1..Len(d.vars) |-> d.vars[i]] IN
+  LET RECURSIVE Roll(_, _)
+      Roll(i, c) == IF i > Len(rv) THEN c
+                    ELSE LET x == EvalVal(rv[i][2], <<2>>, Proj(c)) IN
+                         IF x = <<-1>> THEN Roll(i + 1, c) ELSE Roll(i + 1, (rv[i][1] :> Bind(x, <<0, 0>>, {})) @@ c)
+  IN Roll(1, << >>)
+(* statement's merge rule: a = earlier arrival, b = later arrival *)
+MergeBind(a, b) ==
+  IF a.pid = b.pid THEN a
+  ELSE IF \E hv \in a.hist : hv[1] = b.pid THEN a          \* b merely inherited an older value
+  ELSE b                                                    \* b superseded a, or independent: later arrival wins
+MergeCtx(a, b) ==
+  [v \in DOMAIN a \cup DOMAIN b |->
+     IF v \notin DOMAIN b THEN a[v] ELSE IF v \notin DOMAIN a THEN b[v] ELSE MergeBind(a[v], b[v])]
+(* context after the publishes of one satisfied transition (pid = <<publisher record, transition>>) *)
+RECURSIVE PubBind(_, _, _, _, _)
+PubBind(pub, i, res, c, pid) ==
+  IF i > Len(pub) THEN c
+  ELSE LET x == EvalVal(pub[i][2], res, Proj(c))
+           v == pub[i][1]
+       IN IF x = <<-1>> THEN PubBind(pub, i + 1, res, c, pid)
+          ELSE PubBind(pub, i + 1, res,
+                       (v :> Bind(x, pid, IF v \in DOMAIN c THEN c[v].hist \cup {<<c[v].pid, c[v].val>>} ELSE {})) @@ c, pid)
+RemoveOne(sq, x) == LET m == {i \in 1..Len(sq) : sq[i] = x} IN
+                    IF m = {} THEN sq ELSE RemoveAt(sq, CHOOSE i \in m : \A j \in m : i <= j)
+
 (* ---------- history ------------------------------------------------------------------------- *)
-NoGen == [arr |-> {}, fired |-> FALSE, started |-> FALSE]
+NoGen == [arr |-> {}, fired |-> FALSE, started |-> FALSE, ctx |-> << >>]
 
 HInit(d) ==
   [ started  |-> FALSE,
@@ -69,6 +101,9 @@ HInit(d) ==
     rerun    |-> FALSE,                            \* an accepted rerun happened (C17 owns what follows)
     retried  |-> FALSE,                            \* this step's completion was retried
     compl    |-> << >>,                            \* this step's completion: [] or [t, r, st, dec]
+    ectx     |-> [t \in TaskNames(d) |-> << >>],   \* C06: expected contexts of the outstanding tokens of t
+    xctx     |-> << >>,                            \* C06: execution (Rid) -> expected context it runs with
+    tctx     |-> << >>,                            \* C06: expected contexts of terminal executions, in completion order
     its      |-> << >>,                            \* with-items execution (Rid) -> [started, st]
     att      |-> << >>,                            \* (Rid) -> attempts started in the current visit
     fin      |-> {} ]                              \* indices of records whose decisions are final
@@ -80,30 +115,42 @@ AttOf(h, k) == IF k \in DOMAIN h.att THEN h.att[k] ELSE 0
 
 (* One arrival of inbound task p at join instance k = Rid(j, r). A second arrival of the same  *)
 (* inbound task opens a new generation (loops).                                                *)
-Arrive(d, h, j, r, p) ==
+Arrive(d, h, j, r, p, ec) ==
   LET k  == Rid(j, r)
       g0 == GenOf(h, k)
-      g1 == IF p \in g0.arr THEN [arr |-> {p}, fired |-> FALSE, started |-> FALSE]
-            ELSE [arr |-> g0.arr \cup {p}, fired |-> g0.fired, started |-> g0.started]
+      g1 == IF p \in g0.arr THEN [arr |-> {p}, fired |-> FALSE, started |-> FALSE, ctx |-> ec]
+            ELSE [arr |-> g0.arr \cup {p}, fired |-> g0.fired, started |-> g0.started,
+                  ctx |-> IF g0.arr = {} THEN ec ELSE MergeCtx(g0.ctx, ec)]
       fire == ~g1.fired /\ Cardinality(g1.arr) >= Need(d, j)
       g2 == [g1 EXCEPT !.fired = @ \/ fire]
   IN [h EXCEPT !.gen = (k :> g2) @@ @,
                !.tok[j]  = IF fire THEN @ + 1 ELSE @,
                !.just[j] = IF fire THEN @ + 1 ELSE @]
 
-RECURSIVE Grant(_, _, _, _, _)
-Grant(d, h, dec, i, src) ==                          \* src = <<task, route>> of the completed execution
+(* src = <<task, route>> of the completed execution, xc its expected context, res its result,  *)
+(* li the index of its record (publisher id)                                                   *)
+RECURSIVE Grant(_, _, _, _, _, _, _, _)
+Grant(d, h, dec, i, src, xc, res, li) ==
   IF i > Len(dec) THEN h
-  ELSE LET e == dec[i] IN
-       IF ~e.sat THEN Grant(d, h, dec, i + 1, src)
+  ELSE LET e  == dec[i]
+           ec == PubBind(e.pub, 1, res, xc, <<li, e.ti>>)
+       IN
+       IF ~e.sat THEN Grant(d, h, dec, i + 1, src, xc, res, li)
        ELSE IF e.dst \in Cmds THEN
-              Grant(d, [h EXCEPT !.doomed = @ \/ e.dst = "fail"], dec, i + 1, src)
+              Grant(d, [h EXCEPT !.doomed = @ \/ e.dst = "fail", !.tctx = Append(@, ec)],
+                    dec, i + 1, src, xc, res, li)
        ELSE IF IsJoin(d, e.dst) THEN
               \* several satisfied transitions of one completion into one join are one arrival
+              \* (their contexts are all merged)
               IF \E q \in 1..(i - 1) : dec[q].sat /\ dec[q].dst = e.dst
-              THEN Grant(d, h, dec, i + 1, src)
-              ELSE Grant(d, Arrive(d, h, e.dst, src[2], src[1]), dec, i + 1, src)
-       ELSE Grant(d, [h EXCEPT !.tok[e.dst] = @ + 1, !.just[e.dst] = @ + 1], dec, i + 1, src)
+              THEN LET k == Rid(e.dst, src[2]) IN
+                   Grant(d, [h EXCEPT !.gen = (k :> [GenOf(h, k) EXCEPT !.ctx = MergeCtx(@, ec)]) @@ @],
+                         dec, i + 1, src, xc, res, li)
+              ELSE Grant(d, Arrive(d, h, e.dst, src[2], src[1], ec), dec, i + 1, src, xc, res, li)
+       ELSE Grant(d, [h EXCEPT !.tok[e.dst] = @ + 1, !.just[e.dst] = @ + 1, !.ectx[e.dst] = Append(@, ec)],
+                  dec, i + 1, src, xc, res, li)
+
+XctxOf(h, k) == IF k \in DOMAIN h.xctx THEN h.xctx[k] ELSE << >>
 
 IsCompletion(prev, step) ==
   /\ step.call.op \in {"report", "start"} /\ step.ret = "ok"
@@ -131,7 +178,8 @@ HStepCore(d, h, prev, step) ==
   CASE c.op = "new" ->
          IF obs.wf \in Abended THEN [h0 EXCEPT !.doomed = TRUE]
          ELSE [h0 EXCEPT !.tok  = [t \in TaskNames(d) |-> IF t \in Roots(d) THEN 1 ELSE 0],
-                         !.just = [t \in TaskNames(d) |-> IF t \in Roots(d) THEN 1 ELSE 0]]
+                         !.just = [t \in TaskNames(d) |-> IF t \in Roots(d) THEN 1 ELSE 0],
+                         !.ectx = [t \in TaskNames(d) |-> IF t \in Roots(d) THEN <<RootCtx(d)>> ELSE << >>]]
     [] c.op = "req" ->
          IF step.ret # "ok" THEN h0
          ELSE [h0 EXCEPT !.started   = @ \/ c.st = "running",
@@ -144,6 +192,18 @@ HStepCore(d, h, prev, step) ==
          IF IsNewExec(prev, step)
          THEN [h0 EXCEPT !.tok[c.task]   = IF @ > 0 THEN @ - 1 ELSE 0,
                          !.execd[c.task] = @ + 1,
+                         !.xctx = (Rid(c.task, c.route) :>
+                                     (IF IsJoin(d, c.task) THEN GenOf(h0, Rid(c.task, c.route)).ctx
+                                      ELSE LET seen == CtxOf(obs, Rec(obs, c.task, c.route).ctxin)
+                                               m == {i \in 1..Len(h0.ectx[c.task]) : Proj(h0.ectx[c.task][i]) = seen}
+                                           IN IF h0.ectx[c.task] = << >> THEN << >>
+                                              ELSE IF m = {} THEN h0.ectx[c.task][1]
+                                              ELSE h0.ectx[c.task][CHOOSE i \in m : \A j \in m : i <= j])) @@ @,
+                         !.ectx[c.task] =
+                            IF IsJoin(d, c.task) \/ @ = << >> THEN @
+                            ELSE LET seen == CtxOf(obs, Rec(obs, c.task, c.route).ctxin)
+                                     m == {i \in 1..Len(@) : Proj(@[i]) = seen}
+                                 IN IF m = {} THEN Tail(@) ELSE RemoveAt(@, CHOOSE i \in m : \A j \in m : i <= j),
                          !.its = (Rid(c.task, c.route) :> [started |-> IF c.item >= 0 THEN {c.item} ELSE {}, st |-> << >>]) @@ @,
                          !.att = (Rid(c.task, c.route) :>
                                     IF RecSt(prev, c.task, c.route) = "retrying" THEN AttOf(h0, Rid(c.task, c.route)) + 1 ELSE 1) @@ @,
@@ -162,6 +222,7 @@ HStepCore(d, h, prev, step) ==
          IN
          IF IsRetried(prev, step)
          THEN [h1 EXCEPT !.tok[c.task] = @ + 1, !.just[c.task] = @ + 1, !.retried = TRUE,
+                         !.ectx[c.task] = IF IsJoin(d, c.task) THEN @ ELSE Append(@, XctxOf(h1, Rid(c.task, c.route))),
                          \* a retried join instance is armed again (same generation)
                          !.gen = IF IsJoin(d, c.task)
                                  THEN (Rid(c.task, c.route) :> [GenOf(h1, Rid(c.task, c.route)) EXCEPT !.started = FALSE]) @@ @
@@ -170,13 +231,16 @@ HStepCore(d, h, prev, step) ==
          THEN LET rec == Rec(obs, c.task, c.route)
                   dec == Decide(d, c.task, rec.st, TaskResult(d, step), CtxOf(obs, rec.ctxin))
                   unh == rec.st \in Abended /\ (SatTargets(dec) \ {"continue"}) = {}
-                  h2  == Grant(d, h1, dec, 1, <<c.task, c.route>>)
+                  xc  == XctxOf(h1, Rid(c.task, c.route))
+                  hT  == IF SatTargets(dec) = {} THEN [h1 EXCEPT !.tctx = Append(@, xc)] ELSE h1
+                  h2  == Grant(d, hT, dec, 1, <<c.task, c.route>>, xc, TaskResult(d, step), RecIdx(obs, c.task, c.route))
               IN [h2 EXCEPT !.doomed  = @ \/ unh \/ ExprTrouble(dec),
                             !.cleanup = IF "fail" \in SatTargets(dec)
                                         THEN @ \cup (SatTargets(dec) \ Cmds) ELSE @,
                             !.cleanupDue = IF "fail" \in SatTargets(dec)
                                            THEN {x \in SatTargets(dec) \ Cmds : ~IsJoin(d, x) /\ ~HasItems(d, x)} ELSE {},
-                            !.compl   = <<[t |-> c.task, r |-> c.route, st |-> rec.st, dec |-> dec]>>]
+                            !.compl   = <<[t |-> c.task, r |-> c.route, st |-> rec.st, dec |-> dec, xc |-> xc,
+                                           res |-> TaskResult(d, step)]>>]
          ELSE h1
     [] c.op = "query" -> [h0 EXCEPT !.cleanupDue = {}]
     [] c.op = "rerun" ->
@@ -280,6 +344,55 @@ C04_reject_pure(prev, step) ==
   (step.call.op \in {"req", "rerun"} /\ step.ret # "ok") => Persisted(step.obs) = Persisted(prev)
 C04_reject_class(step) ==
   (step.call.op \in {"req", "rerun"} /\ step.ret # "ok") => step.ret \in Rejections
+
+(* C06: a task sees exactly the variables published by its causal ancestors. *)
+Candidates(d, h1, o) == IF IsJoin(d, o.id) THEN {GenOf(h1, Rid(o.id, o.route)).ctx}
+                        ELSE {h1.ectx[o.id][i] : i \in 1..Len(h1.ectx[o.id])}
+C06_ctx(d, h1, step) ==
+  (step.obs.q /\ ~h1.rerun) =>
+     \A i \in 1..Len(step.obs.offers) :
+        LET o == step.obs.offers[i] IN
+        (o.id \in TaskNames(d) /\ ~OpenRec(step.obs, o.id, o.route)) =>
+            o.ctx \in {Proj(c) : c \in Candidates(d, h1, o)}
+C06_record(d, h0, h1, prev, step) ==
+  (IsNewExec(prev, step) /\ ~h1.rerun /\ step.call.task \in TaskNames(d)) =>
+     CtxOf(step.obs, Rec(step.obs, step.call.task, step.call.route).ctxin)
+        = Proj(XctxOf(h1, Rid(step.call.task, step.call.route)))
+(* decisions and published values agree with the definition evaluated on the expected context *)
+C06_eval(d, h1, step) ==
+  (h1.compl # << >> /\ ~h1.rerun) =>
+     LET cm  == h1.compl[1]
+         rec == Rec(step.obs, cm.t, cm.r)
+         dx  == Decide(d, cm.t, cm.st, cm.res, Proj(cm.xc))
+     IN \A i \in 1..Len(dx) :
+          LET tid == Tid(dx[i].dst, dx[i].key) IN
+          CASE dx[i].c = "T" -> tid \in DOMAIN rec.next /\ rec.next[tid]
+            [] dx[i].c = "F" -> tid \in DOMAIN rec.next /\ ~rec.next[tid]
+            [] OTHER -> TRUE
+C06_published(d, h1, prev, step) ==
+  (h1.compl # << >> /\ ~h1.rerun) =>
+     LET cm  == h1.compl[1]
+         dx  == Decide(d, cm.t, cm.st, cm.res, Proj(cm.xc))
+         exp == SelectSeq([i \in 1..Len(dx) |-> IF dx[i].sat THEN dx[i].new ELSE << >>],
+                          LAMBDA f : DOMAIN f # {})
+     IN SubSeq(step.obs.ctxs, Len(prev.ctxs) + 1, Len(step.obs.ctxs)) = exp
+(* output: for variables whose bindings over the terminal contexts are totally ordered *)
+PidsOf(b) == {hv[1] : hv \in b.hist}
+OrderedB(a, b) == a.pid = b.pid \/ a.pid \in PidsOf(b) \/ b.pid \in PidsOf(a)
+Unambiguous(tc, v) ==
+  \A i, j \in 1..Len(tc) : (v \in DOMAIN tc[i] /\ v \in DOMAIN tc[j]) => OrderedB(tc[i][v], tc[j][v])
+RECURSIVE MergeAll(_, _, _)
+MergeAll(tc, i, acc) == IF i > Len(tc) THEN acc ELSE MergeAll(tc, i + 1, MergeCtx(acc, tc[i]))
+C06_output(d, h1, prev, step) ==
+  (step.call.op = "render" /\ step.ret = "ok" /\ ~prev.hasout /\ prev.wf = "succeeded" /\ ~h1.rerun
+     /\ h1.tctx # << >>) =>
+     LET m == Proj(MergeAll(h1.tctx, 1, << >>)) IN
+     \A k \in 1..Len(d.output) :
+        LET o == d.output[k][1]  e == d.output[k][2] IN
+        (\A v \in DepVar(e) : Unambiguous(h1.tctx, v)) =>
+           LET x == EvalVal(e, <<2>>, m) IN
+           IF x = <<-1>> THEN o \notin DOMAIN step.obs.out
+           ELSE o \in DOMAIN step.obs.out /\ step.obs.out[o] = x
 
 (* C07: joins. *)
 C07_safe(d, h0, prev, step) ==
@@ -458,6 +571,11 @@ Failing(d, h0, h1, prev, step) ==
   FP("C04", "C04_final",           C04_final(h0, prev, step)) \cup
   FP("C04", "C04_reject_pure",     C04_reject_pure(prev, step)) \cup
   FP("C04", "C04_reject_class",    C04_reject_class(step)) \cup
+  FP("C06", "C06_ctx",             C06_ctx(d, h1, step)) \cup
+  FP("C06", "C06_record",          C06_record(d, h0, h1, prev, step)) \cup
+  FP("C06", "C06_eval",            C06_eval(d, h1, step)) \cup
+  FP("C06", "C06_published",       C06_published(d, h1, prev, step)) \cup
+  FP("C06", "C06_output",          C06_output(d, h1, prev, step)) \cup
   FP("C07", "C07_safe",            C07_safe(d, h0, prev, step)) \cup
   FP("C07", "C07_once",            C07_once(d, h1, step)) \cup
   FP("C07", "C07_unreachable",     C07_unreachable(d, h1, step)) \cup
@@ -519,7 +637,27 @@ KF_C12_items_reset_by_late_arrival(d, h1, step) ==
              /\ Cardinality(g.arr) > Need(d, o.id)
              /\ \E k \in 1..Len(o.items) : o.items[k] \in ItsOf(h1, Rid(o.id, o.route)).started
 
+(* S1: at or below a join, a branch that merely inherited an older value of a variable arrives   *)
+(* after the branch that published a newer one, and the older value wins.                        *)
+KF_C06_inherited_delta_after_newer(d, h1, step) ==
+  \/ /\ step.call.op = "render" /\ h1.tctx # << >>
+     /\ LET m == MergeAll(h1.tctx, 1, << >>) IN
+        \E k \in 1..Len(d.output) :
+           LET o == d.output[k][1]  e == d.output[k][2] IN
+           /\ e.k = "ctx" /\ e.v \in DOMAIN m /\ o \in DOMAIN step.obs.out
+           /\ step.obs.out[o] # m[e.v].val
+           /\ \E hv \in m[e.v].hist : hv[2] = step.obs.out[o]
+  \/ /\ step.obs.q
+     /\ \E i \in 1..Len(step.obs.offers) :
+          LET o == step.obs.offers[i] IN
+          /\ o.id \in TaskNames(d) /\ ~OpenRec(step.obs, o.id, o.route)
+          /\ \E c \in Candidates(d, h1, o) :
+               /\ DOMAIN c = DOMAIN o.ctx
+               /\ \E v \in DOMAIN c : o.ctx[v] # c[v].val /\ \E hv \in c[v].hist : hv[2] = o.ctx[v]
+               /\ \A v \in DOMAIN c : o.ctx[v] = c[v].val \/ \E hv \in c[v].hist : hv[2] = o.ctx[v]
+
 Signatures(d, h0, h1, prev, step) ==
+  F("KF_C06_inherited_delta_after_newer", ~KF_C06_inherited_delta_after_newer(d, h1, step)) \cup
   F("KF_C07_late_arrival_after_fire", ~KF_C07_late_arrival_after_fire(d, h1, step)) \cup
   F("KF_C12_items_reset_by_late_arrival", ~KF_C12_items_reset_by_late_arrival(d, h1, step))
 
